@@ -59,9 +59,39 @@ var c07StatusNames = []string{"SUp", "SDown", "SErroring"}
 
 // ---------------------------------------------------------------- the directory
 
+// the diagnostic texts a refusal can carry: none, a plain sentence, Active Directory's sub status
+type c07Diag struct {
+	coq  string
+	text string
+}
+
+func c07ADDiag(sub int) c07Diag {
+	return c07Diag{fmt.Sprintf("(DAD %d%%N)", sub),
+		fmt.Sprintf("80090308: LdapErr: DSID-0C090447, comment: AcceptSecurityContext error, data %x, v3839", sub)}
+}
+
+var c07Diags = []c07Diag{
+	{"DNone", ""},
+	{"DPlain", "wrong name or password"},
+	c07ADDiag(0x52e), // bad password
+	c07ADDiag(0x525), // no such user
+	c07ADDiag(0x530), // not permitted to log on at this time
+	c07ADDiag(0x531), // not permitted to log on from this workstation
+	c07ADDiag(0x532), // password expired
+	c07ADDiag(0x533), // account disabled
+	c07ADDiag(0x701), // account expired
+	c07ADDiag(0x773), // must reset password
+	c07ADDiag(0x775), // locked out
+	c07ADDiag(0x57),  // something no table lists
+}
+
+const c07FirstAccountDiag = 4 // c07Diags[4:] describe the state of an account
+
 type c07Directory struct {
 	mu        sync.Mutex
 	passwords map[string]string // bind DN -> password
+	acct      map[string]int    // bind DN -> index into c07Diags: every bind of this account is refused with it
+	style     int               // index into c07Diags: the diagnostic of ordinary refusals
 	status    []int
 	binds     int
 	answered  int // binds that got a verdict (success / invalid credentials)
@@ -76,11 +106,17 @@ func (d *c07Directory) handler(idx int) func(w ldapserver.ResponseWriter, m *lda
 		n := d.binds
 		st := d.status[idx]
 		expected, known := d.passwords[string(r.Name())]
+		acct, outOfOrder := d.acct[string(r.Name())]
+		style := d.style
 		d.mu.Unlock()
 		if st == c07SErroring {
-			codes := []int{ldapserver.LDAPResultBusy, ldapserver.LDAPResultUnavailable, ldapserver.LDAPResultOperationsError, ldapserver.LDAPResultOther}
+			// any result code but success / invalidCredentials, with any diagnostic (also ones
+			// that look like a refusal's)
+			codes := []int{ldapserver.LDAPResultBusy, ldapserver.LDAPResultUnavailable, ldapserver.LDAPResultOperationsError, ldapserver.LDAPResultOther,
+				ldapserver.LDAPResultUnwillingToPerform, ldapserver.LDAPResultInsufficientAccessRights, ldapserver.LDAPResultInappropriateAuthentication}
+			texts := []string{"replica is sick", "", c07Diags[style].text, c07Diags[2+n%10].text}
 			res := ldapserver.NewBindResponse(codes[n%len(codes)])
-			res.SetDiagnosticMessage("replica is sick")
+			res.SetDiagnosticMessage(texts[(n/len(codes))%len(texts)])
 			w.Write(res)
 			return
 		}
@@ -88,12 +124,16 @@ func (d *c07Directory) handler(idx int) func(w ldapserver.ResponseWriter, m *lda
 		d.answered++
 		d.mu.Unlock()
 		pw := string(r.AuthenticationSimple())
-		if known && pw != "" && expected == pw {
+		if known && pw != "" && expected == pw && !outOfOrder {
 			w.Write(ldapserver.NewBindResponse(ldapserver.LDAPResultSuccess))
 			return
 		}
 		res := ldapserver.NewBindResponse(ldapserver.LDAPResultInvalidCredentials)
-		res.SetDiagnosticMessage("wrong name or password")
+		if outOfOrder {
+			res.SetDiagnosticMessage(c07Diags[acct].text)
+		} else {
+			res.SetDiagnosticMessage(c07Diags[style].text)
+		}
 		w.Write(res)
 	}
 }
@@ -143,7 +183,7 @@ func c07ServerCert(t *testing.T) (tls.Certificate, *x509.CertPool) {
 func c07StartDirectory(t *testing.T, replicas int) (*c07Directory, *x509.CertPool) {
 	ldapserver.Logger = ldapserver.DiscardingLogger
 	cert, pool := c07ServerCert(t)
-	d := &c07Directory{passwords: map[string]string{}, status: make([]int, replicas)}
+	d := &c07Directory{passwords: map[string]string{}, acct: map[string]int{}, style: 1, status: make([]int, replicas)}
 	for i := 0; i < replicas; i++ {
 		idx := i
 		server := ldapserver.NewServer()
@@ -207,13 +247,14 @@ type c07Hist struct {
 	dirPw    map[int]int
 	oldPw    map[int][]int
 	tampered map[int]bool
+	acct     map[int]int // user -> index into c07Diags while the account is out of order
 	// oracle bookkeeping, model time
 	confirmedAt map[string]int64 // "u|pw" -> last directory-confirmed login that was stored
 	rejectedAt  map[string]int64 // "u|pw" -> last answered rejection
 	confSeq     map[string]int   // the same two, as positions in the history
 	rejSeq      map[string]int
-	void        bool // the directory did not behave as scripted (a bind timed out under load)
-	rejOutage   map[string]bool  // ... and whether the primary was not fully up then
+	void        bool            // the directory did not behave as scripted (a bind timed out under load)
+	rejOutage   map[string]bool // ... and whether the primary was not fully up then
 }
 
 var c07Users = []string{"", "alice", "bob", "carol"}
@@ -364,7 +405,8 @@ func (h *c07Hist) login(u, pw int) {
 	before := e.snapP()
 	beforeC := e.snapC()
 	answered := h.anyUp()
-	dirOK := u != 3 && h.dirPw[u] == pw && pw != 0
+	acctDiag, outOfOrder := h.acct[u]
+	dirOK := u != 3 && h.dirPw[u] == pw && pw != 0 && !outOfOrder
 	req := verifNewRequest("POST", proto.LoginPath, url.Values{"username": {raw}, "password": {c07PwString(pw)}})
 	h.d.mu.Lock()
 	a0 := h.d.answered
@@ -394,6 +436,15 @@ func (h *c07Hist) login(u, pw int) {
 	key := fmt.Sprintf("%d|%d", u, pw)
 	kase := map[string]interface{}{"history": h.human, "login": raw, "password_no": pw, "mode": c15ModeNames[e.mode], "replicas": fmt.Sprint(h.d.status)}
 	obs := map[string]interface{}{"status": rr.Code, "answered": answered, "directory_accepts": dirOK}
+	// how the directory words its refusal of this bind (part of the key: which KIND of answer was overruled)
+	refusal := "plain-refusal"
+	if outOfOrder {
+		refusal = "account-state-refusal"
+		kase["account_diagnostic"] = c07Diags[acctDiag].text
+	} else if h.d.style != 1 {
+		refusal = "refusal-with-" + map[bool]string{true: "empty", false: "ad"}[h.d.style == 0] + "-diagnostic"
+	}
+	kase["refusal_diagnostic"] = c07Diags[h.d.style].text
 	// a new record written by this login?
 	slot := c07Users[u] + "|1"
 	newRow, wrote := after.signed[slot]
@@ -442,6 +493,8 @@ func (h *c07Hist) login(u, pw int) {
 		k := "accepted-against-directory"
 		if dirOK {
 			k = "rejected-against-directory"
+		} else if refusal != "plain-refusal" {
+			k += ":" + refusal
 		}
 		e.res.hit(verifHit{Key: "C07:final:" + k, Oracle: "when a directory server answers, its verdict is final",
 			What: fmt.Sprintf("login %s with password #%d: a replica answered, the directory says %v, keymaster said %v (status %d)", raw, pw, dirOK, verdict, rr.Code), Case: kase, Observed: obs})
@@ -465,7 +518,7 @@ func (h *c07Hist) login(u, pw int) {
 				What: fmt.Sprintf("password #%d of %s was rejected by the directory %d s ago (after its last confirmation) and is accepted from the cache now (%s)", pw, raw, h.now-tr, circumstance), Case: kase, Observed: obs})
 		}
 	}
-	if answered && dirOK && verdict && e.mode != c15Dead {
+	if answered && dirOK && verdict && c15Writable(e.mode) {
 		h.confirmedAt[key] = h.now
 		h.confSeq[key] = len(h.ops)
 		if !wrote {
@@ -486,7 +539,11 @@ func (h *c07Hist) login(u, pw int) {
 				if id, ok := h.jwsID[old.jws]; ok && h.recs[id].genuine && h.recs[id].pw == pw && h.recs[id].sub == c07Users[u] && h.recs[id].expM > h.now {
 					for name, s := range map[string]c15Snap{"primary": after, "cache": afterC} {
 						if _, still := s.signed[slot]; still {
-							e.res.hit(verifHit{Key: "C07:evict:row-still-present:" + name, Oracle: "rejection of the cached password evicts the user's cached hash",
+							keyName := name
+							if refusal != "plain-refusal" {
+								keyName += ":" + refusal
+							}
+							e.res.hit(verifHit{Key: "C07:evict:row-still-present:" + keyName, Oracle: "rejection of the cached password evicts the user's cached hash",
 								What: fmt.Sprintf("the directory rejected password #%d of %s, whose hash was cached; the row is still in the %s", pw, raw, name), Case: kase, Observed: obs})
 						}
 					}
@@ -515,6 +572,35 @@ func (h *c07Hist) changePw(u, pw int) {
 	h.dirPw[u] = pw
 	h.record(fmt.Sprintf("(ChangePw %d%%N %d%%N)", u, pw), "None")
 	h.e.res.bump("op:changepw")
+}
+
+// the directory puts the account out of order (every bind refused with diagnostic di) / back in order (di < 0)
+func (h *c07Hist) setAcct(u, di int) {
+	dn := fmt.Sprintf(c07Patterns[0], c07Users[u])
+	h.d.mu.Lock()
+	if di < 0 {
+		delete(h.d.acct, dn)
+	} else {
+		h.d.acct[dn] = di
+	}
+	h.d.mu.Unlock()
+	if di < 0 {
+		delete(h.acct, u)
+		h.record(fmt.Sprintf("(SetAcct %d%%N None)", u), "None")
+		h.e.res.bump("op:account-in-order")
+		return
+	}
+	h.acct[u] = di
+	h.record(fmt.Sprintf("(SetAcct %d%%N (Some %s))", u, c07Diags[di].coq), "None")
+	h.e.res.bump("op:account-refused:" + c07Diags[di].coq)
+}
+
+func (h *c07Hist) setStyle(di int) {
+	h.d.mu.Lock()
+	h.d.style = di
+	h.d.mu.Unlock()
+	h.record("(SetStyle "+c07Diags[di].coq+")", "None")
+	h.e.res.bump("op:style:" + c07Diags[di].coq)
 }
 
 func (h *c07Hist) setMode(m int) {
@@ -605,14 +691,20 @@ func (h *c07Hist) randomOp(allowTamper bool) {
 			u = 3
 		}
 		h.login(u, h.somePw(u))
-	case w < 58:
+	case w < 56:
 		h.setServer(rng.Intn(len(h.d.status)), rng.Intn(3))
+	case w < 60:
+		if _, out := h.acct[u]; out && rng.Intn(2) == 0 {
+			h.setAcct(u, -1)
+		} else {
+			h.setAcct(u, c07FirstAccountDiag+rng.Intn(len(c07Diags)-c07FirstAccountDiag))
+		}
 	case w < 66:
 		h.changePw(u, 1+rng.Intn(5))
 	case w < 73:
 		h.age([]int64{3601, 180007, 340003, 349201, 720011}[rng.Intn(5)])
 	case w < 82:
-		h.setMode(rng.Intn(3))
+		h.setMode(c15RandomMode(rng, true))
 	case w < 87:
 		h.sync()
 	default:
@@ -624,8 +716,8 @@ func (h *c07Hist) randomOp(allowTamper bool) {
 	}
 }
 
-func (h *c07Hist) emit(n int) string {
-	return fmt.Sprintf("(((%d%%nat, [%s]),\n  [%s]),\n  [%s])", n, strings.Join(h.ops, "; "), strings.Join(h.outs, "; "), strings.Join(h.snaps, ";\n   "))
+func (h *c07Hist) emit(n, extraPatterns int) string {
+	return fmt.Sprintf("((((%d%%nat, %d%%nat), [%s]),\n  [%s]),\n  [%s])", n, extraPatterns, strings.Join(h.ops, "; "), strings.Join(h.outs, "; "), strings.Join(h.snaps, ";\n   "))
 }
 
 // ---------------------------------------------------------------- test
@@ -637,6 +729,12 @@ func TestVerif_C07(t *testing.T) {
 	rng := verifRand()
 	dirSrv, pool := c07StartDirectory(t, 2)
 	pa, err := pwldap.New(dirSrv.urls, c07Patterns, 3, pool, st, st.logger)
+	if err != nil {
+		t.Fatal(err)
+	}
+	// the same with the one bind pattern keymasterd's own configuration passes: with two patterns
+	// an attempt that "did not answer" is followed by the second pattern's (final) refusal
+	paOne, err := pwldap.New(dirSrv.urls, c07Patterns[:1], 3, pool, st, st.logger)
 	if err != nil {
 		t.Fatal(err)
 	}
@@ -660,20 +758,33 @@ func TestVerif_C07(t *testing.T) {
 		e.wipe()
 		dirSrv.mu.Lock()
 		dirSrv.passwords = map[string]string{fmt.Sprintf(c07Patterns[1], "carol"): c07PwString(3)}
+		dirSrv.acct = map[string]int{}
+		dirSrv.style = 1
 		for k := range dirSrv.status {
 			dirSrv.status[k] = c07SUp
 		}
 		dirSrv.mu.Unlock()
 		h := &c07Hist{e: e, d: dirSrv, rng: rng, attacker: attacker, jwsID: map[string]int{}, dirPw: map[int]int{}, oldPw: map[int][]int{},
-			tampered: map[int]bool{}, confirmedAt: map[string]int64{}, rejectedAt: map[string]int64{}, rejOutage: map[string]bool{},
+			tampered: map[int]bool{}, acct: map[int]int{}, confirmedAt: map[string]int64{}, rejectedAt: map[string]int64{}, rejOutage: map[string]bool{},
 			confSeq: map[string]int{}, rejSeq: map[string]int{}}
+		extraPatterns := 1
+		if i%2 == 1 {
+			st.passwordChecker = paOne
+			extraPatterns = 0
+			h.human = append(h.human, "[one bind pattern]")
+		} else {
+			st.passwordChecker = pa
+		}
+		// carol's entry (password #3) lives under the second bind pattern
+		h.record("(SetHome 3%N 1%nat)", "None")
+		h.record("(ChangePw 3%N 3%N)", "None")
 		body(h)
 		e.setMode(c15Up)
 		if h.void {
 			voided++
 			return
 		}
-		cases = append(cases, h.emit(len(dirSrv.status)))
+		cases = append(cases, h.emit(len(dirSrv.status), extraPatterns))
 		idx = append(idx, strings.Join(h.human, " "))
 		if i < 3 {
 			res.sample(map[string]interface{}{"history": h.human})
@@ -790,6 +901,27 @@ func TestVerif_C07(t *testing.T) {
 			h.login(2, 1)
 			h.login(1, 1)
 		},
+		func(h *c07Hist) { // the directory refuses an account whose password is cached, for every reason it can give
+			h.changePw(1, 1)
+			h.changePw(2, 2)
+			for di := 0; di < len(c07Diags); di++ {
+				h.login(1, 1) // confirmed: the hash is cached
+				h.setAcct(1, di)
+				h.login(1, 1) // refused although the password is right; evicted
+				h.setServer(0, c07SDown)
+				h.setServer(1, c07SErroring)
+				h.login(1, 1) // nobody answers: the evicted hash must not decide
+				h.setServer(0, c07SUp)
+				h.setServer(1, c07SUp)
+				h.setAcct(1, -1)
+			}
+			h.login(2, 2)
+			h.setStyle(0)
+			h.login(2, 1)
+			h.setStyle(2)
+			h.login(2, 2)
+			h.login(2, 3)
+		},
 		func(h *c07Hist) { // known finding: the primary is unreachable when the directory rejects
 			h.changePw(1, 1)
 			h.login(1, 1)
@@ -804,11 +936,17 @@ func TestVerif_C07(t *testing.T) {
 		},
 	}
 	for i, sc := range scripted {
-		run(i, sc)
+		run(2*i, sc) // two bind patterns
+		if i == 0 || i == 2 || i == len(scripted)-2 {
+			run(2*i+1, sc) // one bind pattern: the cache/outage basics, mixed replica answers, account-state refusals
+		}
 	}
 	for i := 0; i < nHist; i++ {
 		run(i, func(h *c07Hist) {
 			tamper := i%3 != 0 // a third of the histories without tampering (eviction / resurrection oracles)
+			if i%2 == 1 {
+				h.setStyle([]int{0, 2, 3, 2 + rng.Intn(len(c07Diags)-2)}[rng.Intn(4)])
+			}
 			h.changePw(1, 1+rng.Intn(3))
 			h.changePw(2, 1+rng.Intn(3))
 			if rng.Intn(4) > 0 {
@@ -825,7 +963,7 @@ func TestVerif_C07(t *testing.T) {
 				}
 			}
 			if rng.Intn(2) == 0 {
-				h.setMode(rng.Intn(3))
+				h.setMode(c15RandomMode(rng, true))
 			}
 			for u := 1; u <= 2; u++ {
 				h.login(u, h.dirPw[u])
